@@ -10,6 +10,18 @@ CHECKS = {
         text="Bounded symbolic verification: all 18 backend functions (Numba py_func, NumPy fallbacks, CUDA host wrapper + kernel through a one-thread-per-index launcher) are executed on symbolic records, windows and analysis angle and the solver shows each of the five statistics equal to the directly evaluated windowed DFT for every input within the stated shapes (quick: L<=4, K<=2; thorough: L<=8, K<=3). Unit tests compare |X|^2 on one record and never run the CUDA code or look at Im{XY}.",
         note="Reals stand for binary64 (rounding budget outside the claim); numba/LLVM/PTX code generation trusted (py_func semantics encoded, counterexamples replayed on the compiled kernels and numba's CUDA simulator); np.linalg.qr replaced by exact Gram-Schmidt; shapes beyond the bounds not covered.",
         ref="DESIGN.md section 4 C01"),
+    "C02": dict(
+        text="Bounded symbolic verification of one scheduler iteration from an ARBITRARY loop state (so plans of any length and any Jdes are covered): the current source of ltf_plan/lpsd_plan/vectorized_ltf_plan/new_ltf_plan is interpreted with if-then-else state merging over symbolic N (unbounded), fs, olap, bmin, Lmin, Jdes, Kdes; the solver shows no division by zero / sqrt of a negative, max(1,Lmin)<=L<=N, K>=1, K=navg=len(D), K=1=>L=N, every start in [0,N-L], first start 0, strictly increasing, last start N-L (generic k-th start from the proved loop invariant; generic-element arange for the vectorised code; literal unrolling for N<=12/24 with an unwinding assertion); SpectrumAnalyzer.plan() is executed in fork mode on symbolic plans satisfying exactly those post-conditions and never raises. The tests run three schedulers on one configuration.",
+        note="Exact reals (IEEE ties outside); (N/2)**(1/Jdes) is an uninterpreted application with stated facts and the vectorised lookup grid is a generic adjacent pair; every sat model is replayed by running the real scheduler and SpectrumAnalyzer.plan() on the model's configuration family and checking every bin; new_ltf_plan has open known findings (F5a-d) and its heavier obligations run in the thorough tier only.",
+        ref="DESIGN.md section 4 C02"),
+    "C03": dict(
+        text="Same encodings as C02: for one iteration from an arbitrary state the solver shows r*L=fs, f'=f+r, r>0, f<fs/2, the stored b equals f*L/fs, f0=bmin*fs/N, b>=bmin-f/(2fs) (times 1/rho for the vectorised lookup grid), and that lpsd_plan forwards exactly its arguments with bmin=1.0, Lmin=1. N unbounded.",
+        note="Exact reals; power and lookup-grid abstractions as in C02; replay on real plans; new_ltf_plan violates r*L=fs (known finding F5b).",
+        ref="DESIGN.md section 4 C03"),
+    "C04": dict(
+        text="Solver-decided for one iteration from an arbitrary state: K is the integer nearest to 1+(N-L)/((1-olap)L) capped at N-L+1 (tie free), starts within half a sample of k(N-L)/(K-1), reported overlap equals the realised mean overlap (bins with 1..4 symbolic starts), unclamped-regime clauses |L-L*|<=1/2 and the Kdes-level averaging bound; find_Jdes_binary_search and plan(force_target_nf) are executed in fork mode over every return pattern of an uninterpreted scheduler: exact count or error. Two-step monotonicity of L and K is posed in the thorough tier (may be inconclusive).",
+        note="Exact reals; MIN_JDES/MAX_JDES shrunk to 8/32 values; 'within 10% of the iterative scheduler' is outside the claim; monotonicity obligations were inconclusive at 120 s in this sandbox and are reported as such, never as success.",
+        ref="DESIGN.md section 4 C04"),
     "C06": dict(
         text="Bounded symbolic verification: the real auto kernels are executed on x[n]=A cos(w0 n+phi) with symbolic amplitude, phase, frequency and an arbitrary real window, and the solver shows XX=|A/2(e^{i phi}S1+e^{-i phi}W(2w0))|^2 for every such input (hence ps=A^2/2 exactly when the image term vanishes, any L and fractional bin); the scaling laws in c are shown on all 18 kernels and, with the law in the sampling rate a, on SpectrumResult for a generic bin; ENBW=fs*S2/S12. Tests check ENBW>0 only.",
         note="Reals for binary64; L<=4 (quick) / 6 (thorough), K<=2; the size of the Kaiser image term is C12's subject; scheduler homogeneity in fs is C03's.",
